@@ -490,6 +490,7 @@ package jmespath
 //@   ensures {C17} [error-location] isSyntaxError(err) ==> err.Expression == expression && 0 <= err.Offset && err.Offset <= len(expression)
 //@   ensures {C04} [never-an-empty-node] err == nil ==> result.ast.nodeType != ASTEmpty
 //@   ensures {C12,C13} [fresh-interpreter] err == nil ==> result.intr != nil
+//@   ensures {C01,C02,C03,C04,C07,C08,C13,C15} @internal [compiles-to-the-tree-the-grammar-assigns-to-the-tokens-of-the-expression] err == nil ==> snd(specParse(parser.tokens)) && same(result.ast, fst(specParse(parser.tokens)))
 //@   assigns \nothing
 //@   fresh
 
@@ -1016,6 +1017,9 @@ package jmespath
 //@   assigns \nothing
 //@   ensures {C16} [json-result] err == nil ==> specJSONVal(result)
 //@   ensures {C17} [error-location] isSyntaxError(err) ==> err.Expression == expression && 0 <= err.Offset && err.Offset <= len(expression)
+//@   ensures {C01,C02,C03,C07,C08,C11,C15} @internal [evaluates-the-tree-the-grammar-assigns-to-the-tokens-of-the-expression] err == nil && pureTree(fst(specParse(parser.tokens))) ==> snd(specParse(parser.tokens)) && snd(specEval(fst(specParse(parser.tokens)), data)) && same(result, fst(specEval(fst(specParse(parser.tokens)), data)))
+//@   ensures {C01,C11} @internal [fails-when-the-tokens-are-ungrammatical-or-the-evaluation-fails] snd(specParse(parser.tokens)) && pureTree(fst(specParse(parser.tokens))) && !snd(specEval(fst(specParse(parser.tokens)), data)) ==> err != nil
+
 // Hand-written variants for the functions that only matter on Go values (C18): truthiness by
 // reflection, struct field access, and the typed-slice twins of the projections.
 
